@@ -293,7 +293,7 @@ PROPS["C09"] = {
         "operations are applied through ConfigActor::set_config / del_config (what the ConfigRaftCmd handler calls after parsing the key); two keys in two tenants",
         "listings: every API entry point queries with Some(tenant); the tenant == None branch of TenantIndex::query_config_page is not part of the claim",
     ],
-    "outside": "HTTP / gRPC parameter parsing; fuzzy (like) filters; text size limits; the real md5; full-value import and temporary values (tmp flag) histories",
+    "outside": "HTTP / gRPC parameter parsing; text size limits; the md5 function itself (the native replay uses the real one)",
     "explanation": "bounded symbolic execution of the config store's real source with arbitrary string contents",
 }
 PROPS["C19"]["smt"] = _c19_smt
